@@ -22,8 +22,8 @@ REGISTRY = dict(
          "eliminate_discarded_variables (identity) + eliminate_unused_variables/eliminate_unused_def, the only passes that exist; "
          "SideEffectChecker::is_impure arm by arm) and a trace semantics (printed lines x normal/uncaught exception class) for the "
          "mini-HIR it works on. Theorems for all programs and nesting depths: what is_impure accepts is silent (purity_sound), "
-         "removing silent unreferenced definitions preserves the behaviour of every ending run (opt_preserves), levels 1-3 run the "
-         "same passes and level 0 none (table regenerated from optimize.rs on every run), the optimiser does not panic. "
+         "removing silent unreferenced definitions preserves the behaviour of every ending run (opt_preserves; as a partial "
+         "function of the program: opt_preserves_total), levels 1-3 run the same passes and level 0 none (table regenerated from optimize.rs on every run), the optimiser does not panic. "
          "Reference counts are an input of the model (index correctness is not proved here; the hypothesis used, that nothing left "
          "mentions an identifier of a removed definition, is evaluated on every dumped program). Tied to the code by optimising the "
          "real dumped HIR with the extracted model and comparing trees at every level, and by the direct differential "
@@ -384,6 +384,57 @@ class Gen:
         return [list(PREAMBLE)] + stmts + [tail]
 
 
+# ---- systematic placements: every kind of initialiser in every context, used / unused, private / public
+SYS_INITS = [  # (kind, rhs or None, extra body lines (relative indentation 4), effect free?, printable?)
+    ("lit", "7", [], True, True), ("arith", "((zero + 3) * 2)", [], True, True),
+    ("blk", None, ["a0 = (zero + 2)", "(a0 + 1)"], True, True), ("list", "[zero, 4]", [], True, True),
+    ("tuple", "(zero, 4)", [], True, True), ("fcall", "sf(3)", [], True, True), ("lamcall", "sg(3)", [], True, True),
+    ("len", "len([zero, 1])", [], True, True), ("abs", "abs(zero - 4)", [], True, True),
+    ("print", 'print! "m0"', [], False, True), ("push", "gl.push! 5", [], False, True), ("inc", "gi.inc!()", [], False, True),
+    ("pcall", "gq!(2)", [], False, True), ("methcall", "gq!(zero - 2).abs()", [], False, True),
+    ("attrcall", "gq!(2).real", [], False, True),
+    ("pblk", None, ['print! "b0"', "(zero + 1)"], False, True), ("rec", '{a = print! "r0"; b = 1}', [], False, False),
+    ("list_eff", "[gq!(1), 2]", [], False, True), ("tuple_eff", "(gq!(1), 2)", [], False, True),
+    ("arg_eff", "abs(gq!(1))", [], False, True), ("bin_eff", "(gq!(1) + 1)", [], False, True),
+    ("div0", "4 // zero", [], True, True), ("mod0", "4 % zero", [], True, True), ("divnz", "9 // 2", [], True, True),
+    ("index_bad", "three[5]", [], True, True), ("index_ok", "three[1]", [], True, True),
+    ("int_bad", 'int "zz"', [], True, True), ("int_ok", 'int "12"', [], True, True),
+    ("assert_bad", "assert zero == 1", [], True, True), ("assert_ok", "assert zero == 0", [], True, True),
+    ("fraise", "sr(1)", [], True, True),
+]
+SYS_PRE = ["sf(p: Int) = p + 1", "sg = (p: Int) -> (p + 2)", "sr(p: Int) =", "    y0 = p // zero", "    p"]
+SYS_CTX = ["module", "public", "proc", "then", "else", "for", "func"]
+
+
+def systematic_cases():
+    out = []
+    for kind, rhs, extra, pure, printable in SYS_INITS:
+        for cx in SYS_CTX:
+            if cx == "func" and not pure:
+                continue
+            for used in (False, True):
+                if used and not printable:
+                    continue
+                name = ".x0" if cx == "public" else "x0"
+                d = [name + " =" + ((" " + rhs) if rhs else "")] + ["    " + l for l in extra]
+                use = ["print! " + name] if used else ['print! "u0"']
+                if cx in ("module", "public"):
+                    body = d + use
+                elif cx == "proc":
+                    body = ["sp!(p: Int) ="] + ["    " + l for l in d + use] + ["    p", "print! sp!(1)"]
+                elif cx == "then":
+                    body = ["if! zero == 0:", "    do!:"] + ["        " + l for l in d + use] + ["    do!:", '        print! "no"']
+                elif cx == "else":
+                    body = ["if! zero == 1:", "    do!:", '        print! "no"', "    do!:"] + ["        " + l for l in d + use]
+                elif cx == "for":
+                    body = ["for! [1, 2], j0 =>"] + ["    " + l for l in d + use]
+                else:
+                    body = ["sh(p: Int) ="] + ["    " + l for l in d] + ["    " + ("(p + x0)" if used and kind in ("lit", "arith", "blk", "fcall", "lamcall", "len", "abs", "div0", "mod0", "divnz", "index_bad", "index_ok", "int_bad", "int_ok", "fraise") else "p"), "print! sh(1)"]
+                src = "\n".join(PREAMBLE + SYS_PRE + body + ["print! gl, gi"]) + "\n"
+                out.append(("%s in %s, %s" % (kind, cx, "used" if used else "unused"), src))
+    return out
+
+
 def render(stmts):
     return "\n".join(l for s in stmts for l in s) + "\n"
 
@@ -533,6 +584,10 @@ def evaluate(ctx, h, model, erg, srcs, variant=0):
         fh = ex.submit(run_harness_many, h, srcs)
         fc = ex.submit(run_cli_many, erg, env, srcs)
         dumps, clis = fh.result(), fc.result()
+    # a generated program has no unbounded loop: a timeout is the machine, not the program; retry once, alone
+    for k, cli in enumerate(clis):
+        if any(o[1] == "timeout" for o in cli):
+            clis[k] = run_cli(erg, env, srcs[k], timeout=900)
     res = []
     mcases, midx = [], []
     for k, (src, dump, cli) in enumerate(zip(srcs, dumps, clis)):
@@ -558,6 +613,9 @@ def evaluate(ctx, h, model, erg, srcs, variant=0):
     jres = model.run([[1, [obs_wire(o) for o in r.cli]] for r in res]) if res else []
     for r, j in zip(res, jres):
         r.judge = (j == 1)
+        r.timed_out = any(o[1] == "timeout" for o in r.cli)
+        if r.timed_out:
+            r.judge = True          # not a verdict about the program: counted and reported in the evidence
         if r.status != 0:
             continue
         for lv in LEVELS:
@@ -679,6 +737,14 @@ def run(ctx):
     cases = []
     for f, src, expect in corpus_cases():
         cases.append(("corpus:" + f, src, expect, None))
+    sysc = systematic_cases()
+    if not ctx.thorough:
+        sysc = ctx.rng.sample(sysc, int(os.environ.get("C12_SYS", 24)))
+    else:
+        ctx.cov["exhaustive_small_scope"] = "%d placements: every initialiser kind (%d) in every context (%s), used and unused" % (
+            len(sysc), len(SYS_INITS), ", ".join(SYS_CTX))
+    for label, src in sysc:
+        cases.append(("placement", src, "any", None))
     ngen = int(os.environ.get("C12_N", ctx.scale(60, 2400)))
     gens = {}
     for i in range(ngen):
@@ -717,6 +783,8 @@ def report(ctx, proof, h, model, erg, cases, results):
                 if not ((r.status != 0) and all(o[1].startswith("compile:") or o[2] != 0 for o in r.cli)):
                     ctx.count("in-process build and CLI disagree on compilation")
             # a program that does not compile is still judged (all levels must fail the same way)
+        if getattr(r, "timed_out", False):
+            ctx.count("program: timed out twice (not judged)")
         ctx.count("removed definitions", len(r.removed))
         ctx.count("removed definitions of class Known_C12", sum(1 for _i, k in r.removed if k))
         for o in r.cli[:1]:
